@@ -145,6 +145,10 @@ type Spec struct {
 	Paths    []*PathItem `json:"paths"`
 	Defs     []DefKV     `json:"defs"`
 	Ext      map[string]interface{} `json:"-"`
+	// info.contact / info.license present (without extensions: the analyser looks only at their x- members, so presence
+	// must change nothing — and must not crash it); outside the Lean model
+	Contact bool `json:"-"`
+	License bool `json:"-"`
 }
 
 // ---------- rendering to Swagger 2.0 JSON ----------
@@ -304,6 +308,12 @@ func (s *Spec) Render() map[string]interface{} {
 	}
 	if s.InfoDesc != "" {
 		m["info"].(map[string]interface{})["description"] = s.InfoDesc
+	}
+	if s.Contact {
+		m["info"].(map[string]interface{})["contact"] = map[string]interface{}{"name": "n"}
+	}
+	if s.License {
+		m["info"].(map[string]interface{})["license"] = map[string]interface{}{"name": "MIT"}
 	}
 	if s.Consumes != nil {
 		m["consumes"] = s.Consumes
